@@ -268,18 +268,33 @@ def check(ctx):
     writes = []
     s_pd = ctx.builder().summarize(pd_, self_cls=cls)
     for pc, name, t, n in s_pd.assigns:
-        if t[0] == "setitem" and t[2][0] == "fstr" and any(x[0] == "elem" and x[1] == STATES for x in t[2][1]) and any(x[0] == "elem" and x[1] == _A("features") for x in t[2][1]):
+        # the state loop may run over the list itself or over something derived from it (a local that is the list or a replacement of
+        # it): the copy is recognised by its name template <feature>_<element of something built from states_for_separate_model>
+        if t[0] == "setitem" and t[2][0] == "fstr" and any(x[0] == "elem" and x[1] == _A("features") for x in t[2][1]) \
+                and any(x[0] == "elem" and x[1] != _A("features") and any(y == STATES for y in ir.walk(x[1])) for x in t[2][1]):
             writes.append((pc, t, n))
     ctx.sites("C16.R7", len(writes), 1, "per-state feature copies in prepare_data")
     for pc, t, n in writes:
-        st_elem = next(x for x in t[2][1] if x[0] == "elem" and x[1] == STATES)
+        st_elem = next(x for x in t[2][1] if x[0] == "elem" and x[1] != _A("features") and any(y == STATES for y in ir.walk(x[1])))
         ok7 = False
         for c, pol in pc:
             if c[0] == "cmp" and ((c[1] == "in" and pol) or (c[1] == "not in" and not pol)) and c[2] == st_elem:
                 # the states that have a row with reporting == 1:  <frame>[isclose(<frame>.reporting, 1)].postal_code.unique()
                 u_ = c[3]
-                if u_[0] == "call" and u_[1][0] == "attr" and u_[1][2] == "unique" and not u_[2]:
-                    pc_ = ir.column_ref(u_[1][1])
+                # .unique() / set(..) / list(..) / .tolist() / .values around the column do not change what is a member
+                col_ = None
+                while True:
+                    if u_[0] == "call" and u_[1][0] == "attr" and u_[1][2] in ("unique", "tolist", "to_list", "drop_duplicates") and not u_[2]:
+                        u_ = u_[1][1]
+                    elif u_[0] == "call" and u_[1][0] == "global" and u_[1][1] in ("set", "list", "tuple", "frozenset", "numpy.unique", "pandas.unique") and len(u_[2]) == 1 and not u_[3]:
+                        u_ = u_[2][0]
+                    elif u_[0] == "attr" and u_[2] == "values":
+                        u_ = u_[1]
+                    else:
+                        break
+                    col_ = u_
+                if col_ is not None:
+                    pc_ = ir.column_ref(col_)
                     if pc_ is not None and pc_[1] == "postal_code" and pc_[0][0] == "sub":
                         m_ = pc_[0][2]
                         if m_[0] == "call" and ir.show(m_[1]).endswith("isclose") and len(m_[2]) == 2 and m_[2][1] == ("const", 1) \
